@@ -195,7 +195,10 @@ def rule_no_clear_payload(ctx):
     sites = [ctx.program.func(f"{APPSESSION}.publish"), ctx.program.func(f"{APPSESSION}.call"), ctx.program.func(f"{BASESESSION}._message_from_exception")]
     sites += [c for c in om.closures() if om.closure_arm(c)[0] == "Invocation" and c.name in ("success", "progress")]
     count = 0
+    from .common import recover_names
     for fn in sites:
+        # the encoded payload: the local holding what the payload codec returned (whatever it is called)
+        fn = recover_names(ctx, fn, [("encoded_payload", "def", lambda v: any(isinstance(x, ast.Call) and norm.text(x.func) == "self._payload_codec.encode" for x in ast.walk(v)))])
         g, mf, res = an.get(fn)
         ctx.analysed(fn)
         in_handlers = {id(x) for h in ast.walk(fn.node) if isinstance(h, ast.ExceptHandler) for x in ast.walk(h)}
@@ -456,7 +459,10 @@ def rule_keyring(ctx):
         raise AnalysisError(f"[C20.4-keyring-envelope] KeyRing.encode / decode outside the modelled subset: {e}")
     ctx.ob("encode seals exactly {uri, args, kwargs} under the box of (direction, URI) with a fresh nonce and labels the result cryptobox / json [1 cell]", not probs_e, "; ".join(probs_e[:2]), enc.loc())
     ctx.ob("decode opens the payload with the box of (direction, URI) and returns the sealed uri, args, kwargs in that order [1 cell]", not probs_d, "; ".join(probs_d[:2]), dec.loc())
-    nb = [s for s in walk_no_defs(dec.node) if isinstance(s, ast.If) and norm.atoms(s.test, True) == [("truth", "box", None, False)]]
+    # the box: the local holding what self._get_box() returned (whatever it is called)
+    boxn = {s_.targets[0].id for s_ in walk_no_defs(dec.node) if isinstance(s_, ast.Assign) and len(s_.targets) == 1 and isinstance(s_.targets[0], ast.Name)
+            and isinstance(s_.value, ast.Call) and norm.text(s_.value.func) == "self._get_box"} or {"box"}
+    nb = [s for s in walk_no_defs(dec.node) if isinstance(s, ast.If) and any(norm.atoms(s.test, True) == [("truth", b_, None, False)] for b_ in boxn)]
     ctx.ob("decode without a key raises", len(nb) == 1 and any(isinstance(x, ast.Raise) for x in nb[0].body), "changed", dec.loc())
 
 
